@@ -38,7 +38,7 @@ def gen_policy(rng, n):
 def gen_case(rng, big=False, allow_huge=True):
     n = rng.choice([1, 1, 2, 2, 3, 3, 3, 4, 6])
     tol = rng.choice([0, 0, 1, 30 * MS, 30 * MS, 100 * MS, 1000 * MS, 2 * HOUR])
-    huge = allow_huge and rng.random() < 0.03
+    huge = allow_huge and rng.random() < 0.06   # sorting latencies at / above the one-hour sentinel
     offs = []
     for _ in range(n):
         o = rng.choice([0, 0, 0, 10 * MS, 50 * MS, tol, -20 * MS])
@@ -306,7 +306,7 @@ def shrink(sc, binary, case, codes):
     if f:
         ops = ops[:f[0] + 1]
     size = max(len(ops) // 2, 1)
-    budget = 30
+    budget = 10
     while budget > 0 and len(ops) > 1:
         budget -= 1
         cands = [dict(cur, ops=ops[:i] + ops[i + size:]) for i in range(0, len(ops), size) if len(ops) - min(size, len(ops) - i) >= 1]
@@ -355,7 +355,7 @@ def main(argv):
     args = vlib.main_args(argv)
     out = vlib.Outcome(PID, args.tier, args.seed)
     rng = vlib.rng_for(args.seed, PID)
-    n_cases = 240 if args.tier == "quick" else 8000
+    n_cases = 150 if args.tier == "quick" else 8000
 
     proof_ok, pinfo = vlib.proof_stage(out, PROPS, TARGETS)
     cov = {"obligations": pinfo["obligations"], "discharged": pinfo["discharged"],
@@ -430,7 +430,7 @@ def main(argv):
             classes.setdefault(tuple(matchers_for(cases[i])[:-1]), []).append(i)
         n_reported = 0
         for cls in sorted(classes, key=lambda k: (len(k), k)):
-            if n_reported >= 3:
+            if n_reported >= 2:
                 break
             i = classes[cls][0]
             codes = tuple(sorted(set(code for (_, code, _) in all_err[i] if code in SPEC_CODES)))
